@@ -11,6 +11,7 @@ Equivariance of the remaining algorithms of the property is evaluated on the imp
 import SkNet.Lemmas.WLEquiv
 import SkNet.Properties.C10
 import SkNet.Lemmas.EmbeddingEquiv
+import SkNet.Lemmas.WLCollision
 
 namespace SkNet.C02
 open SkNet SkNet.WL
@@ -49,6 +50,42 @@ theorem wl_partition_eq_refinement {H : Type} {ops : HashOps H} (hx : ExactOps o
   have e : colorWL ops adj none = (coloring ops adj adj.length (tab adj.length fun _ => 0) true).1 := rfl
   rw [e, inv.groups u v hu hv]
   exact (inseparable_iff_of_stable adj hwf k' hstable u v hu hv).symm
+
+/-! ### the kernel the code runs: a float hash, which is *not* exact
+
+`wl_partition_eq_refinement` needs `ExactOps ops`: a hash that identifies exactly the permutations of a colour
+list. The compiled kernel uses `floatOps`: Σ (−π/3.15)^colour in float64 with the test `|a − b| > 1e-10`. That
+instance is not exact, and the full claim about it is false. -/
+
+/-- the claim of the property for the float kernel, with `pw` the `powers` array numpy hands to it -/
+def wl_float_partition_eq_refinement_full (pw : Array Float) : Prop :=
+  ∀ adj : List (List Nat), WFAdj adj → adj.length ≤ pw.size → ∀ u v, u < adj.length → v < adj.length →
+    ((colorWL (floatOps pw) adj none).getD u 0 = (colorWL (floatOps pw) adj none).getD v 0 ↔ Inseparable adj u v)
+
+/-- **wl_float_hash_collision** (negation of the full claim, by a concrete witness). On the 63-node graph
+`collisionAdj`, with numpy's own `powers` array, the float kernel stops with nodes 0 and 11 sharing a colour
+although two rounds of colour refinement separate them (their neighbourhoods have degrees {1,2⁴,3⁵} and
+{11⁵,12⁴,13}: the hashes differ by 2.7e-13 < ε). Replayed on the implementation by the harness on every run
+(`corpus/C02.jsonl`, known finding F-C02-wl-hash-collision); `wl_partition_eq_refinement` is the part that is
+proved: the kernel with an exact hash. -/
+theorem wl_float_hash_collision : ¬ wl_float_partition_eq_refinement_full collisionPowers := by
+  intro h
+  have := (h collisionAdj collisionAdj_wf (by decide) 0 11 (by decide) (by decide)).1 collision_same_colour 2
+  rw [collision_separated] at this
+  exact Bool.noConfusion this
+
+/-! ### the evaluators of the `spec` lines are the specification -/
+
+/-- **spec_lines_sound**. What the driver evaluates on the implementation's colours (`groupsAsT`, `stableAtT`,
+`groupsAsStable`: memoised tables) is the propositional specification: `Groups adj k`, `Stable adj k`, and
+"two nodes share a colour iff refinement can never separate them" — on every well-formed adjacency structure. -/
+theorem spec_lines_sound (adj : List (List Nat)) (hwf : WFAdj adj) (labels : List Nat) (k : Nat) :
+    (groupsAsT adj k labels = true ↔ Groups adj k labels) ∧
+    (stableAtT adj k = true ↔ Stable adj k) ∧
+    (groupsAsStable adj labels = true ↔
+      ∀ u v, u < adj.length → v < adj.length → (labels.getD u 0 = labels.getD v 0 ↔ Inseparable adj u v)) :=
+  ⟨by rw [groupsAsT_eq adj hwf, groupsAs_iff], by rw [stableAtT_eq adj hwf, stableAt_iff],
+   groupsAsStable_iff adj hwf labels⟩
 
 /-! ## the exact instance satisfies the hypotheses (non-vacuity; it is also what `c02.wl_exact` runs) -/
 
@@ -158,13 +195,17 @@ theorem nnz_relabel {n : Nat} {π πinv : Nat → Nat} (hp : IsPerm n π πinv) 
   exact hperm.foldl_eq' (fun x _ y _ z => by omega) 0
 
 /-- **areIsomorphic_relabel**. The Weisfeiler-Lehman test never declares a graph non-isomorphic to a
-renumbered copy of itself (nor fails on it): for every graph, every renumbering, every `max_iter`,
+renumbered copy of itself (nor fails on it): for every graph with at least one stored entry (a matrix without any is refused
+by `check_format`: `ValueError`, not an answer), every renumbering, every `max_iter`,
 `are_isomorphic(G, πG)` returns `True`. -/
 theorem areIsomorphic_relabel {H : Type} {ops : HashOps H} (hx : ExactOps ops) {n : Nat} {π πinv : Nat → Nat}
-    (hp : IsPerm n π πinv) (adj : List (List Nat)) (hn : adj.length = n) (hwf : WFAdj adj)
+    (hp : IsPerm n π πinv) (adj : List (List Nat)) (hn : adj.length = n) (hpos : 0 < nnz adj) (hwf : WFAdj adj)
     (maxIter : Option Nat) :
     areIsomorphic ops adj (relabelAdj π πinv adj) maxIter = some true := by
   unfold areIsomorphic
+  have he : (nnz adj == 0 || nnz (relabelAdj π πinv adj) == 0) = false := by
+    rw [nnz_relabel hp adj hn]; simp; omega
+  rw [if_neg (by rw [he]; exact Bool.false_ne_true)]
   have hl : (adj.length != (relabelAdj π πinv adj).length) = false := by simp [relabelAdj_length]
   have hz : (nnz adj != nnz (relabelAdj π πinv adj)) = false := by simp [nnz_relabel hp adj hn]
   simp only [hl, hz, Bool.or_self, Bool.false_eq_true, if_false]
@@ -274,6 +315,20 @@ theorem dist_equivariant {n : Nat} {π πinv : Nat → Nat} (hp : IsPerm n π π
     apply ((C10.exact_entry hd' (hp.lt v hv)).1).2
     intro d hwd
     exact hun d ((hw d v hv).1 hwd)
+
+/-- **getDistances_equivariant** (on the model of the code). The frontier loop of `get_distances` (C10's
+`distancesFromMask`, which always returns: `C10.bfs_exact`) run on a renumbered graph with the renumbered
+source mask returns the renumbered distance vector. -/
+theorem getDistances_equivariant {n : Nat} {π πinv : Nat → Nat} (hp : IsPerm n π πinv)
+    (edge edge' : Nat → Nat → Bool) (mask mask' : List Bool)
+    (he : ∀ i j, i < n → j < n → edge' (π i) (π j) = edge i j)
+    (hm : ∀ i, i < n → mask'.getD (π i) false = mask.getD i false) :
+    ∃ d d', Path.distancesFromMask n edge mask = some d ∧ Path.distancesFromMask n edge' mask' = some d' ∧
+      ∀ v, v < n → d'.getD (π v) (-1) = d.getD v (-1) := by
+  obtain ⟨d, hd, hex, _⟩ := C10.bfs_exact n edge mask
+  obtain ⟨d', hd', hex', _⟩ := C10.bfs_exact n edge' mask'
+  exact ⟨d, d', hd, hd', fun v hv =>
+    dist_equivariant hp edge edge' _ _ he hm d d' hex hex' v hv⟩
 
 /-- exact distances are equivariant, stated on the specification: `d` is the hop distance of `π v` in the
 renumbered graph iff it is the hop distance of `v` in the original. -/
